@@ -19,6 +19,9 @@ use std::time::Duration;
 static CHAOS_COUNT: std::sync::atomic::AtomicU64 = std::sync::atomic::AtomicU64::new(0);
 /// Bumped by every change of the ring membership / host ids.
 static TOPO_VERSION: std::sync::atomic::AtomicU64 = std::sync::atomic::AtomicU64::new(0);
+/// Ring members that joined unreachable (connection attempts hang until the driver's
+/// connect timeout): each can keep the publishing worker waiting for its pool once.
+static BLACKHOLES: std::sync::atomic::AtomicU64 = std::sync::atomic::AtomicU64::new(0);
 
 fn ring_now() -> BTreeSet<[u8; 16]> {
     let w = world::world();
@@ -76,6 +79,7 @@ async fn main(plan: Plan) -> Outcome {
     let mut out = Outcome::default();
     TOPO_VERSION.store(0, std::sync::atomic::Ordering::SeqCst);
     CHAOS_COUNT.store(0, std::sync::atomic::Ordering::SeqCst);
+    BLACKHOLES.store(0, std::sync::atomic::Ordering::SeqCst);
     let cfg = SessionCfg {
         contact_nodes: vec![0],
         pool: PoolSize::PerHost(NonZeroUsize::new(1).unwrap()),
@@ -123,6 +127,13 @@ async fn main(plan: Plan) -> Outcome {
                     if let Some(n) = (0..total).find(|n| !w.cluster.nodes[*n].in_ring) {
                         w.cluster.nodes[n].in_ring = true;
                         w.cluster.nodes[n].up = true;
+                        if pick % 4 == 3 {
+                            // The new member is unreachable from the client: the worker that
+                            // publishes the state waits for its pool (connect timeout) while
+                            // further fetches pile up in the hand-off slot.
+                            w.cluster.nodes[n].partitioned = true;
+                            BLACKHOLES.fetch_add(1, std::sync::atomic::Ordering::SeqCst);
+                        }
                         w.fault(Fault::Topology);
                         w.log(&format!("join node={n}"));
                         TOPO_VERSION.fetch_add(1, std::sync::atomic::Ordering::SeqCst);
@@ -137,8 +148,11 @@ async fn main(plan: Plan) -> Outcome {
                             if has_cc {
                                 let session = session2.clone();
                                 let late = late2.clone();
+                                // Each unreachable member may hold the publication back by one
+                                // connect timeout (5 s).
+                                let wait = (6 + 6 * BLACKHOLES.load(std::sync::atomic::Ordering::SeqCst)) * SEC;
                                 tokio::spawn(async move {
-                                    world::sleep_ns(6 * SEC).await;
+                                    world::sleep_ns(wait).await;
                                     if CHAOS_COUNT.load(std::sync::atomic::Ordering::SeqCst) != seen {
                                         return;
                                     }
@@ -149,8 +163,9 @@ async fn main(plan: Plan) -> Outcome {
                                         .any(|n| *n.host_id.as_bytes() == host);
                                     if !published {
                                         late.lock().unwrap().push(format!(
-                                            "node {n} joined and NEW_NODE was sent at {} ms; 6 quiet seconds later the published state still lacks it",
-                                            (world::now_ns() - 6 * SEC) / MS
+                                            "node {n} joined and NEW_NODE was sent at {} ms; {} quiet seconds later the published state still lacks it",
+                                            (world::now_ns() - wait) / MS,
+                                            wait / SEC
                                         ));
                                     }
                                 });
@@ -294,7 +309,7 @@ async fn main(plan: Plan) -> Outcome {
         }
     }
     let _ = chaos.await;
-    world::sleep_ns(7 * SEC).await;
+    world::sleep_ns(26 * SEC).await;
     for m in late.lock().unwrap().iter() {
         out.violation("c19.event_not_reflected", m.clone());
     }
